@@ -103,6 +103,9 @@ class Gen:
         self.exts = []
         self.napp = 0
         self.aliased = set()   # elements that have an alias: never appended to (see ASSUMPTIONS)
+        self.comps = {}        # compressed elements whose first content compresses well: (tag, ref) -> length
+        self.cchunks = {}      # chunked + compressed elements: (tag, ref) -> (nd, chunk bytes, chunks written, all coords)
+        self.sdcc = {}         # chunked + compressed data sets: index -> (nt, rank, dims)
         self.lbinfo = {}       # linked-block elements made by 'lb'/'lbs': (tag, ref) -> (bl, nb, length)
         self.vgmem = {}        # vgroup slot -> current number of members
         self.vglist = {}       # vgroup slot -> member keys in order: ('vs', i) / ('vg', i) / (tag, ref)
@@ -174,23 +177,35 @@ class Gen:
                 coder = r.choice([0, 1, 1, 4, 4, 2, 3])
                 p = {0: 0, 1: 0, 2: r.choice([3, 5, 8]), 3: r.choice([1, 2, 4]), 4: r.choice([1, 6, 9])}[coder]
                 n = r.choice([0, 1, 2, 3, 4, 8, 20, 40, 130, 260]) if coder != 3 else r.choice([4, 8, 16])
-                L.append("comp %d %d %d %d %d %s" % (F, tag, ref, coder, p, hexs(rbytes(r, n))))
+                data = rbytes(r, n)
+                if coder in (0, 1, 4) and n >= 8 and r.random() < 0.6:
+                    data = [r.randrange(256)] * n          # compresses well: a later rewrite will need more room
+                    self.comps[(tag, ref)] = n
+                L.append("comp %d %d %d %d %d %s" % (F, tag, ref, coder, p, hexs(data)))
                 self.any.append((tag, ref))
             elif k < 0.66:
                 ref = self.newref(tag)
                 nd = r.choice([1, 2, 2, 3])
                 nt = r.choice([1, 1, 2, 4])
-                dims = [r.choice([1, 2, 3, 4, 5, 7]) for _ in range(nd)]
-                cl = [r.randrange(1, d + 1) for d in dims]
+                coder = r.choice([0, 0, 1, 4, 4])
+                if coder:
+                    dims = [r.choice([2, 4, 6, 8]) for _ in range(nd)]
+                    cl = [r.choice([d, max(1, d // 2)]) for d in dims]
+                else:
+                    dims = [r.choice([1, 2, 3, 4, 5, 7]) for _ in range(nd)]
+                    cl = [r.randrange(1, d + 1) for d in dims]
                 nch = [(d + c - 1) // c for d, c in zip(dims, cl)]
-                coder = r.choice([0, 0, 1, 4])
                 csz = 1
                 for c in cl:
                     csz *= c
                 fill = rbytes(r, nt)
                 cs = gen_coords(nch)
                 chosen = [c for c in cs if r.random() < 0.7][:12]
-                ws = " ".join("%s %s" % (" ".join(map(str, c)), hexs(rbytes(r, csz * nt))) for c in chosen)
+                flat = coder and r.random() < 0.7
+                ws = " ".join("%s %s" % (" ".join(map(str, c)), hexs([r.randrange(256)] * (csz * nt) if flat else rbytes(r, csz * nt)))
+                              for c in chosen)
+                if coder and chosen:
+                    self.cchunks[(tag, ref)] = (nd, csz * nt, chosen, cs)
                 L.append("chunk %d %d %d %d %d %s %s %d %d %s %d %s" % (
                     F, tag, ref, nt, nd, " ".join(map(str, dims)), " ".join(map(str, cl)), coder, 6 if coder == 4 else 0,
                     hexs(fill), len(chosen), ws))
@@ -238,8 +253,10 @@ class Gen:
                 if cands:
                     s = r.choice(cands)
                     nf = self.vsinfo[s][0]
-                    fi = r.choice([-1] + list(range(nf)))
-                    for an in attr_names(r, r.choice([1, 2, 3])):
+                    # attributes of several owners (the vdata itself, different fields) set in interleaved order
+                    owners = [-1] + list(range(nf))
+                    for an in attr_names(r, r.choice([1, 2, 3, 4])):
+                        fi = r.choice(owners)
                         cnt = r.choice([1, 2, 4])
                         L.append("vsattr %d %d %d %s 21 %d %s" % (F, s, fi, hx(an), cnt, hexs(rbytes(r, cnt))))
             elif k < 0.96:
@@ -302,6 +319,20 @@ class Gen:
         L = self.lines
         c = r.random()
         has_vg = any(v > 0 for v in self.vgmem.values())
+        if (self.cchunks or self.comps) and r.random() < 0.4:
+            # write compressed data again with content that compresses worse: the compressed element, no longer the
+            # last thing in the file, cannot grow in place and becomes linked blocks (chunked+compressed+linked)
+            if self.cchunks and (not self.comps or r.random() < 0.6):
+                (t, rf), (nd, cb, chosen, cs) = r.choice(sorted(self.cchunks.items()))
+                pick = [c for c in chosen if r.random() < 0.7] or chosen[:1]
+                if r.random() < 0.3:
+                    pick = pick + [c for c in cs if c not in chosen][:1]
+                ws = " ".join("%s %s" % (" ".join(map(str, c)), hexs([r.randrange(256) for _ in range(cb)])) for c in pick)
+                L.append("chunkw %d %d %d %d %d %s" % (F, t, rf, nd, len(pick), ws))
+            else:
+                (t, rf), n = r.choice(sorted(self.comps.items()))
+                L.append("compw %d %d %d %s" % (F, t, rf, hexs([r.randrange(256) for _ in range(n)])))
+            return
         if c < (0.35 if has_vg else 0.6) and self.lbinfo:
             # rewrite a linked-block element: start inside an earlier block table, cross table boundaries that exist
             # already and go on past the end (new blocks / tables allocated after the crossing); or leave a hole
@@ -343,6 +374,60 @@ class Gen:
                 s_ = r.choice(cands)
                 nrec = r.choice([1, 3, 9])
                 L.append("vsapp %d %d %d %s" % (F, s_, nrec, hexs(rbytes(r, nrec * self.vsinfo[s_][1]))))
+
+    def vsattr_session(self, F):
+        """vdatas whose attribute list interleaves the owners (vdata, field 0, field 1, ...)"""
+        r = self.r
+        L = self.lines
+        L.append("hopen %d %d %d" % (F, r.choice([4, 16]), r.choice([0, 1])))
+        for _ in range(r.choice([1, 2])):
+            if self.vs >= 14:
+                break
+            nf = r.choice([2, 3])
+            fl = " ".join("%s 21 1" % hx("fld%d" % i) for i in range(nf))
+            L.append("vs %d %d 0 0 %d %s %s %s 2 %s" % (F, self.vs, nf, fl, hx("va%d" % self.vs), hx("c"), hexs(rbytes(r, 2 * nf))))
+            self.vsinfo = getattr(self, "vsinfo", {})
+            self.vsinfo[self.vs] = (nf, nf)
+            owners = [-1] + list(range(nf))
+            seq = [r.choice(owners) for _ in range(r.choice([3, 4, 5, 6]))]
+            for j, fi in enumerate(seq):
+                cnt = r.choice([1, 2, 3, 5])
+                L.append("vsattr %d %d %d %s 21 %d %s" % (F, self.vs, fi, hx("at%d" % j), cnt, hexs(rbytes(r, cnt))))
+            self.vs += 1
+        L.append("hclose %d" % F)
+
+    def wrap_session(self, F):
+        """the file's reference counter has reached 65535 (an object with that ref exists): new refs are found by
+        searching; descriptors are not in ascending ref order (explicit refs written downwards, freed slots reused)"""
+        r = self.r
+        L = self.lines
+        L.append("hopen %d %d %d" % (F, r.choice([4, 16]), r.choice([0, 1])))
+        L.append("put %d 1106 65535 %s" % (F, hexs(rbytes(r, 3))))
+        self.any.append((1106, 65535))
+        refs = sorted(r.sample(range(2, 9), r.choice([2, 3, 4])), reverse=True)
+        for rf in refs:
+            L.append("put %d 1105 %d %s" % (F, rf, hexs(rbytes(r, 4))))
+            self.plain.append((1105, rf))
+            self.any.append((1105, rf))
+            self.refs[1105] = max(self.refs.get(1105, 0), rf)
+        for _ in range(r.choice([2, 3, 4])):
+            k = r.random()
+            if k < 0.3 and len([e for e in self.plain if e[0] == 1105 and e not in self.members]) > 1:
+                t, rf = r.choice([e for e in self.plain if e[0] == 1105 and e not in self.members])
+                L.append("del %d %d %d" % (F, t, rf))
+                self.plain.remove((t, rf))
+                self.any.remove((t, rf))
+            elif k < 0.7 and self.vs < 14:
+                L.append("vs %d %d 0 0 1 %s 21 2 %s %s 1 %s" % (F, self.vs, hx("f"), hx("w%d" % self.vs), hx("c"), hexs(rbytes(r, 2))))
+                self.vsinfo = getattr(self, "vsinfo", {})
+                self.vsinfo[self.vs] = (1, 2)
+                self.vs += 1
+            elif self.vg < 14:
+                L.append("vg %d %d %s %s 0" % (F, self.vg, hx("wg%d" % self.vg), hx("k")))
+                self.vgmem[self.vg] = 0
+                self.vglist[self.vg] = []
+                self.vg += 1
+        L.append("hclose %d" % F)
 
     def vg_session(self, F):
         """vdatas, plain elements and vgroups naming them: material for later sessions that remove members"""
@@ -421,6 +506,16 @@ class Gen:
                                                " ".join(map(str, [add] + dims[1:])), hexs(rbytes(r, n))))
                 L.append("sdendaccess")
                 self.unlim[idx] = (nt, rank, [dims[0] + add] + dims[1:])
+        # chunked + compressed data sets of earlier sessions written again with data that compresses worse
+        for idx, (nt, rank, dims) in sorted(self.sdcc.items()):
+            if r.random() < 0.7:
+                n = NT[nt]
+                for e in dims:
+                    n *= e
+                L.append("sdselect %d" % idx)
+                L.append("sdwrite %s %s %s" % (" ".join(["0"] * rank), " ".join(map(str, dims)),
+                                               hexs([r.randrange(256) for _ in range(n)])))
+                L.append("sdendaccess")
         plan = [None] * r.choice([1, 1, 2, 3])
         if two_unlimited:
             plan = ["unlim", "unlim"] + [None] * r.choice([0, 1])
@@ -428,7 +523,9 @@ class Gen:
             nt = r.choice([20, 21, 22, 23, 24, 5, 6])
             rank = r.choice([1, 2, 2, 3])
             dims = [r.choice([1, 2, 3, 4, 5, 6]) for _ in range(rank)]
-            layout = want or r.choice(["contig", "contig", "chunk", "chunk", "chunkcomp", "comp", "unlim", "nodata"])
+            layout = want or r.choice(["contig", "contig", "chunk", "chunk", "chunkcomp", "chunkcomp", "comp", "unlim", "nodata"])
+            if layout == "chunkcomp":
+                dims = [r.choice([4, 6, 8]) for _ in range(rank)]
             unl = layout == "unlim"
             if two_unlimited and unl:
                 dims[0] = r.choice([1, 2, 3, 4, 5, 6, 7])
@@ -457,7 +554,11 @@ class Gen:
                 n = NT[nt]
                 for e in ed:
                     n *= e
-                L.append("sdwrite %s %s %s" % (" ".join(map(str, st)), " ".join(map(str, ed)), hexs(rbytes(r, n))))
+                flat = layout == "chunkcomp" and r.random() < 0.7
+                L.append("sdwrite %s %s %s" % (" ".join(map(str, st)), " ".join(map(str, ed)),
+                                               hexs([r.randrange(256)] * n if flat else rbytes(r, n))))
+                if layout == "chunkcomp":
+                    self.sdcc[my_index] = (nt, rank, dims)
                 if unl:
                     recs = dims[0]
                     if r.random() < 0.5:
@@ -547,8 +648,8 @@ class Gen:
 def gen_history(r, name, knobs=None):
     g = Gen(r, name)
     sessions = r.choice([["h"], ["h", "h"], ["h", "he"], ["h", "h", "he"], ["h", "sd"], ["h", "gr"], ["h", "he", "he"], ["lbt", "he"], ["lbt"], ["lbt", "he", "he"],
-                         ["sd"], ["gr"], ["h", "sd"], ["sd", "h"], ["h", "gr"], ["gr", "sd"], ["sd", "sd"], ["sd2", "sd"],
-                         ["sd2"], ["sd2", "sd", "sd"], ["vgs", "he"], ["vgs", "he", "he"], ["vgs", "he"], ["h", "sd", "gr"], ["sd", "gr", "he"], ["gr"], ["gr", "gr"], ["gr", "h"], ["dfsd"], ["dfsd", "h"],
+                         ["sd"], ["gr"], ["h", "sd"], ["sd", "h"], ["h", "gr"], ["gr", "sd"], ["sd", "sd"], ["sd", "sd", "sd"], ["sd", "h", "sd"], ["h", "he", "he"], ["sd2", "sd"],
+                         ["sd2"], ["sd2", "sd", "sd"], ["vgs", "he"], ["vgs", "he", "he"], ["vgs", "he"], ["vsa"], ["vsa", "he"], ["wrap"], ["wrap", "he"], ["h", "wrap"], ["h", "sd", "gr"], ["sd", "gr", "he"], ["gr"], ["gr", "gr"], ["gr", "h"], ["dfsd"], ["dfsd", "h"],
                          ["h", "dfsd"], ["dfsd"]])
     snapped = False
     for s in sessions:
@@ -560,6 +661,10 @@ def gen_history(r, name, knobs=None):
             g.lb_tables_session(0)
         elif s == "vgs":
             g.vg_session(0)
+        elif s == "vsa":
+            g.vsattr_session(0)
+        elif s == "wrap":
+            g.wrap_session(0)
         elif s == "sd":
             g.sd_session(0)
         elif s == "sd2":
@@ -684,6 +789,27 @@ def compare(h, R, per_s):
     if any(l.startswith("crash") for l in R):
         c = [l for l in R if l.startswith("crash")][0]
         bad.append(("crash", "the library crashed while building or dumping the file (%s)" % c))
+    # a reference number handed out for a new object (Vattach / VSattach with -1, i.e. Hnewref) is not in use in the
+    # file: not the ref of an object the history made earlier and did not delete
+    inuse = {}
+    opres = [l.split() for l in R if l.startswith("op ")]
+    for hl, u in zip([x for x in h[1:] if not x.startswith("#")], opres):
+        ht = hl.split()
+        ok_ = len(u) > 2 and u[2] == "ok"
+        if not ok_:
+            continue
+        if ht[0] in ("put", "lb", "lbs", "ext", "comp", "chunk", "dup", "defonly"):
+            inuse[int(ht[3])] = hl[:40]
+        elif ht[0] == "del":
+            inuse.pop(int(ht[3]), None)
+        elif ht[0] in ("vs", "vg") and len(u) > 3:
+            v = int(u[3])
+            if v in inuse:
+                bad.append(("newref", "the new %s of '%s' was given ref %d, which is in use (made by '%s')" % (
+                    "vdata" if ht[0] == "vs" else "vgroup", hl[:40], v, inuse[v])))
+            inuse[v] = hl[:40]
+        elif ht[0] == "vgdel" and ht[4] == "1" and len(u) > 3:
+            inuse.pop(int(u[3]) % 100000, None)
     # groups, one per hclose / snap, in order: what the writing session read just before (PRE*) and its in-memory
     # directory (MEM)
     groups, cur = [], None
@@ -946,10 +1072,30 @@ def run(ctx):
         corpus += split_histories([l for l in open(os.path.join(cdir, fn)).read().splitlines() if l.strip() and not l.startswith("#")])
     nh = 100 if ctx.tier == "quick" else 2500
     hists = corpus + [gen_history(r, "g%d" % i) for i in range(nh)]
-    wd, rc, per, asan = run_R(ctx, hists, "main")
-    rcs, per_s = run_S(ctx, wd, hists, per)
-    if rcs != 0:
-        raise vc.BuildError("h4read failed rc=%d" % rcs)
+    # batches of histories run side by side (library harness, then h4read on the files it left), 4 at a time
+    ctx.harness("drive_fmt", ["drive_fmt.c"])
+    ctx.model("fmt_read", ["fmt_main.ml"], ["fmt_spec"])
+    bsz = 30 if ctx.tier == "quick" else 100
+    batches = [hists[i:i + bsz] for i in range(0, len(hists), bsz)]
+
+    def one(ib):
+        i, b = ib
+        wd_, rc_, per_, asan_ = run_R(ctx, b, "main%d" % i)
+        rcs_, per_s_ = run_S(ctx, wd_, b, per_)
+        shutil.rmtree(wd_, ignore_errors=True)
+        return rc_, per_, asan_, rcs_, per_s_
+    from concurrent.futures import ThreadPoolExecutor
+    with ThreadPoolExecutor(max_workers=4) as ex:
+        results = list(ex.map(one, enumerate(batches)))
+    rc, per, asan, per_s = 0, {}, [], {}
+    for rc_, per_, asan_, rcs_, per_s_ in results:
+        if rcs_ != 0:
+            raise vc.BuildError("h4read failed rc=%d" % rcs_)
+        rc = rc or rc_
+        per.update(per_)
+        per_s.update(per_s_)
+        asan += asan_
+    wd = None
     tot = {}
     opmix, opfail = {}, {}
     nviol = 0
@@ -994,7 +1140,6 @@ def run(ctx):
                    "# run: bin/check C02 --replay <this file>"] + small + ["# disagreements:"] + \
                   ["#   [%s] %s" % b for b in fb[:8]] + ["#   asan: " + a for a in asan2 if "ERROR" in a or "SUMMARY" in a][:4]
             ctx.violation("%s: %s" % fb[0], "\n".join(txt), found=True)
-    shutil.rmtree(wd, ignore_errors=True)
     ctx.corr("library~h4read", histories=len(hists), corpus_histories=len(corpus), op_mix=opmix,
              compared={k: v for k, v in tot.items() if k not in ("RE", "DM")},
              histories_matching_known_findings=known, harness_rc=rc, **opfail)
